@@ -36,10 +36,16 @@ use std::os::fd::RawFd;
 use std::ptr;
 use std::slice;
 use std::sync::atomic::{AtomicUsize, Ordering};
+#[cfg(not(feature = "verif-hooks"))]
 use std::sync::Arc;
 use std::thread;
 use std::time::{Duration, UNIX_EPOCH};
 use tempfile::{Builder, TempDir};
+
+#[cfg(feature = "verif-hooks")]
+mod verif_arc;
+#[cfg(feature = "verif-hooks")]
+use self::verif_arc::Arc;
 
 const MAX_FDS_IN_CMSG: u32 = 64;
 
